@@ -121,6 +121,41 @@ c15!(c15_valve, {
     core::mem::forget(r);
 });
 
+/// The reported online count and the player list disagree (count 0, two players
+/// listed - servers do that): the generic player list and its JSON form still carry
+/// every listed player.
+c15!(c15_valve_more_players_listed_than_online, {
+    let (s0, s1): (i32, i32) = (kani::any(), kani::any());
+    let info = valve::ServerInfo {
+        protocol_version: 17,
+        name: "Nm".to_string(),
+        map: "M".to_string(),
+        folder: "f".to_string(),
+        game_mode: "G".to_string(),
+        appid: 440,
+        players_online: 0,
+        players_maximum: 8,
+        players_bots: 0,
+        server_type: Server::Dedicated,
+        environment_type: Environment::Linux,
+        has_password: false,
+        vac_secured: true,
+        the_ship: None,
+        game_version: "1.0".to_string(),
+        extra_data: None,
+        is_mod: false,
+        mod_data: None,
+    };
+    let players = Some(vec![
+        valve::ServerPlayer { name: "Al".to_string(), score: s0, duration: 1.0, deaths: None, money: None },
+        valve::ServerPlayer { name: "Bo".to_string(), score: s1, duration: 2.0, deaths: None, money: None },
+    ]);
+    let r = valve::Response { info, players, rules: None };
+    let want = [("Al", Some(s0)), ("Bo", Some(s1))];
+    view_is(&r, Some("Nm"), None, Some("G"), Some("1.0"), Some("M"), 8, 0, Some(0), Some(false), Some(&want[..]));
+    core::mem::forget(r);
+});
+
 c15!(c15_gamespy_one, {
     let (online, max): (u32, u32) = (kani::any(), kani::any());
     let pw: bool = kani::any();
